@@ -726,6 +726,33 @@ struct QExpression {
         }
     }
 
+    // -1, 0 or 1: this value against right by VALUE, both being Natural or Integer.
+    // A negative Integer is below every Natural; otherwise the 64 bits compare as unsigned.
+    int compareWhole(const QExpression &right) const noexcept {
+        const bool negative = ((Type == ExpressionType::IntegerNumber) && (Value.Number.Integer < 0));
+        const bool right_negative =
+            ((right.Type == ExpressionType::IntegerNumber) && (right.Value.Number.Integer < 0));
+
+        if (negative != right_negative) {
+            return (negative ? -1 : 1);
+        }
+
+        if (negative) {
+            return ((Value.Number.Integer < right.Value.Number.Integer)
+                        ? -1
+                        : int(Value.Number.Integer > right.Value.Number.Integer));
+        }
+
+        return ((Value.Number.Natural < right.Value.Number.Natural)
+                    ? -1
+                    : int(Value.Number.Natural > right.Value.Number.Natural));
+    }
+
+    // The value of a Natural or an Integer as a double.
+    double wholeToReal() const noexcept {
+        return ((Type == ExpressionType::NaturalNumber) ? double(Value.Number.Natural) : double(Value.Number.Integer));
+    }
+
     bool operator>=(const QExpression &right) const noexcept {
         switch (Type) {
             case ExpressionType::NaturalNumber: {
@@ -733,7 +760,7 @@ struct QExpression {
                     return (double(Value.Number.Natural) >= right.Value.Number.Real);
                 }
 
-                return (Value.Number.Integer >= right.Value.Number.Integer);
+                return (compareWhole(right) >= 0);
             }
 
             case ExpressionType::IntegerNumber: {
@@ -741,12 +768,12 @@ struct QExpression {
                     return (double(Value.Number.Integer) >= right.Value.Number.Real);
                 }
 
-                return (Value.Number.Integer >= right.Value.Number.Integer);
+                return (compareWhole(right) >= 0);
             }
 
             case ExpressionType::RealNumber: {
                 if (right.Type != ExpressionType::RealNumber) {
-                    return (Value.Number.Real >= double(right.Value.Number.Integer));
+                    return (Value.Number.Real >= right.wholeToReal());
                 }
             }
 
@@ -764,7 +791,7 @@ struct QExpression {
                     return (double(Value.Number.Natural) > right.Value.Number.Real);
                 }
 
-                return (Value.Number.Integer > right.Value.Number.Integer);
+                return (compareWhole(right) > 0);
             }
 
             case ExpressionType::IntegerNumber: {
@@ -772,12 +799,12 @@ struct QExpression {
                     return (double(Value.Number.Integer) > right.Value.Number.Real);
                 }
 
-                return (Value.Number.Integer > right.Value.Number.Integer);
+                return (compareWhole(right) > 0);
             }
 
             case ExpressionType::RealNumber: {
                 if (right.Type != ExpressionType::RealNumber) {
-                    return (Value.Number.Real > double(right.Value.Number.Integer));
+                    return (Value.Number.Real > right.wholeToReal());
                 }
             }
 
@@ -795,7 +822,7 @@ struct QExpression {
                     return (double(Value.Number.Natural) <= right.Value.Number.Real);
                 }
 
-                return (Value.Number.Integer <= right.Value.Number.Integer);
+                return (compareWhole(right) <= 0);
             }
 
             case ExpressionType::IntegerNumber: {
@@ -803,12 +830,12 @@ struct QExpression {
                     return (double(Value.Number.Integer) <= right.Value.Number.Real);
                 }
 
-                return (Value.Number.Integer <= right.Value.Number.Integer);
+                return (compareWhole(right) <= 0);
             }
 
             case ExpressionType::RealNumber: {
                 if (right.Type != ExpressionType::RealNumber) {
-                    return (Value.Number.Real <= double(right.Value.Number.Integer));
+                    return (Value.Number.Real <= right.wholeToReal());
                 }
             }
 
@@ -826,7 +853,7 @@ struct QExpression {
                     return (double(Value.Number.Natural) < right.Value.Number.Real);
                 }
 
-                return (Value.Number.Integer < right.Value.Number.Integer);
+                return (compareWhole(right) < 0);
             }
 
             case ExpressionType::IntegerNumber: {
@@ -834,12 +861,12 @@ struct QExpression {
                     return (double(Value.Number.Integer) < right.Value.Number.Real);
                 }
 
-                return (Value.Number.Integer < right.Value.Number.Integer);
+                return (compareWhole(right) < 0);
             }
 
             case ExpressionType::RealNumber: {
                 if (right.Type != ExpressionType::RealNumber) {
-                    return (Value.Number.Real < double(right.Value.Number.Integer));
+                    return (Value.Number.Real < right.wholeToReal());
                 }
             }
 
@@ -857,7 +884,7 @@ struct QExpression {
                     return (double(Value.Number.Natural) == right.Value.Number.Real);
                 }
 
-                return (Value.Number.Integer == right.Value.Number.Integer);
+                return (compareWhole(right) == 0);
             }
 
             case ExpressionType::IntegerNumber: {
@@ -865,12 +892,12 @@ struct QExpression {
                     return (double(Value.Number.Integer) == right.Value.Number.Real);
                 }
 
-                return (Value.Number.Integer == right.Value.Number.Integer);
+                return (compareWhole(right) == 0);
             }
 
             case ExpressionType::RealNumber: {
                 if (right.Type != ExpressionType::RealNumber) {
-                    return (Value.Number.Real == double(right.Value.Number.Integer));
+                    return (Value.Number.Real == right.wholeToReal());
                 }
             }
 
